@@ -880,7 +880,7 @@ func gen(r *Rng, tier string, emit func(Sx)) {
 func main() {
 	Main(Family{
 		ID:   "C08",
-		Rule: "each case builds two in-memory tries from random insert/overwrite/delete histories (0-30 entries; keys: 1-3 bytes over a 4-symbol alphabet with keys that are prefixes of others, 1-2 bytes with a wide root branch, 32-byte keys sharing 28+ byte prefixes, or random 32-byte keys; values 1-71 bytes so that node encodings are both embedded (< 32 bytes) and hashed; a quarter of the second tries differ from the first in one entry) and asks, for present keys, deleted keys, random absent keys and absent neighbours of present keys: Prove (the ordered (hash, encoding) Puts), Prove+VerifyProof, and VerifyProof on explicit databases: the genuine proof shuffled, with random deletions, with genuine nodes of the other trie added (against either root), nodes of the other trie only, a corrupted node added/substituted under its own hash, a corrupted node under the original key (mis-keyed database: no oracle, correspondence only), mismatched roots (random, other trie, inner node, bit-flipped), a corrupted re-keyed root node, and hand-crafted non-canonical nodes (nested empty-key extensions, wrong element counts, wrong reference sizes, odd compact flags). Non-trivial: a trie with >= 3 keys, at least one verification returning a value and at least one returning an error; distinct = distinct case line.",
+		Rule: "deep tries first: for key lengths n in {1,2,4,8,20,32} bytes a comb (base key plus one sibling sharing exactly i nibbles for every i < 2n, random insertion order; values all >= 29 bytes so that every node is hashed and the proof of the base key has the maximal 2n+1 nodes, or 1-3 bytes so that leaves and bottom branches embed, or mixed, or 27-30 bytes around the 32-byte boundary of the terminator-only leaf) with a second trie lacking the base key, queried (Prove node list, Prove+VerifyProof, the maximal proof as explicit database shuffled / against the other root / with its last node dropped) at the base key, siblings, absent keys diverging at sampled (thorough: all, for n <= 8) depths and inside sibling leaf keys, the proper prefix and extensions of the base key; and two-key tries whose root extension has i nibbles for sampled (thorough: all) i up to the maximal 2n-1, queried at both keys and at absent keys diverging inside the extension, at the branch and inside the leaf key. Then each case builds two in-memory tries from random insert/overwrite/delete histories (0-30 entries; keys: 1-3 bytes over a 4-symbol alphabet with keys that are prefixes of others, 1-2 bytes with a wide root branch, 32-byte keys sharing 28+ byte prefixes, or random 32-byte keys; values 1-71 bytes so that node encodings are both embedded (< 32 bytes) and hashed; a quarter of the second tries differ from the first in one entry) and asks, for present keys, deleted keys, random absent keys and absent neighbours of present keys: Prove (the ordered (hash, encoding) Puts), Prove+VerifyProof, and VerifyProof on explicit databases: the genuine proof shuffled, with random deletions, with genuine nodes of the other trie added (against either root), nodes of the other trie only, a corrupted node added/substituted under its own hash, a corrupted node under the original key (mis-keyed database: no oracle, correspondence only), mismatched roots (random, other trie, inner node, bit-flipped), a corrupted re-keyed root node, and hand-crafted non-canonical nodes (nested empty-key extensions, wrong element counts, wrong reference sizes, odd compact flags). Non-trivial: a trie with >= 3 keys, at least one verification returning a value and at least one returning an error; distinct = distinct case line.",
 		Gen:  gen,
 		Run:  run,
 	})
